@@ -1,22 +1,22 @@
 import BppModel.PNorm
 /-!
-# The special-function kernels of `RandomTools`, transcribed  (RandomTools.cpp:146-277, 426-947)
+# The special-function kernels of `RandomTools`, transcribed  (RandomTools.cpp:146-279, 428-949)
 
 Round 2 of C08: what round 1 kept as abstract parameters (`DistGuards.Kernels`) is transcribed
 here, generic over `[Scalar α]`, the same operations in the same order as the C++ (the driver
 runs it at `Float` and compares bit for bit with the library):
 
-* `incompleteGamma`   cpp:146-217  — argument checks, `x == 0`, far-tail guard, the switch
+* `incompleteGamma`   cpp:146-219  — argument checks, `x == 0`, `isinf(x)`, far-tail guard, the switch
   `x > 1 && x >= p`, the series loop (l20) and the continued-fraction loop (l32-l42);
-* `qChisq`            cpp:220-277  — range guard, the three starting values (closed form with its
+* `qChisq`            cpp:222-279  — range guard, the three starting values (closed form with its
   early return, the `v <= .32` iteration l2, Wilson–Hilferty l3 with its tail correction), the AS91
   refinement loop l4 with the error exit when `incompleteGamma` reports an error;
-* `incompleteBeta`    cpp:559-665  — domain checks, end points, direct power series, tail swap
+* `incompleteBeta`    cpp:561-667  — domain checks, end points, direct power series, tail swap
   `x > a/(a+b)`, power series after the swap, choice between the two continued fractions, the two
   normalisations (direct / logarithmic), the complement `1 - t` with its clamp on the swapped side;
-  sub-kernels `incompletebetaps` (cpp:897-947), `incompletebetafe` (cpp:670-774),
-  `incompletebetafe2` (cpp:781-887);
-* `qBeta`             cpp:426-556  — domain, end points, tail swap at `prob > 0.5`, the four start
+  sub-kernels `incompletebetaps` (cpp:899-949), `incompletebetafe` (cpp:672-776),
+  `incompletebetafe2` (cpp:783-889);
+* `qBeta`             cpp:428-558  — domain, end points, tail swap at `prob > 0.5`, the four start
   values, the `lower/upper` reset, the accuracy `acu`, the modified Newton iteration (two nested
   loops, both capped by `niterations = 2000`).
 
@@ -66,6 +66,13 @@ def iterCap {σ β : Type} (step : σ → Sum σ β) : Nat → σ → Sum σ β
     | .inl s' => iterCap step n s'
     | .inr b => .inr b
 
+/-- `std::isinf` (cpp:158): only the `Float` reading of the arithmetic has infinities.  (The same
+test as `Bpp.Hmm.HasIsInf` of C13's model; kept separate so that neither model imports the other.) -/
+class InfTest (α : Type) where
+  isInf : α → Bool
+instance : InfTest Float := ⟨Float.isInf⟩
+instance : InfTest Rat := ⟨fun _ => false⟩
+
 variable {α : Type} [Scalar α]
 
 def three : α := ofInt 3
@@ -73,16 +80,16 @@ def minusOne : α := ofInt (-1)
 /-- `n / 2^(k1+k2)` for exponents beyond the range of a single power of two -/
 def dy2 (n : Int) (k1 k2 : Nat) : α := dy n k1 * dy 1 k2
 
-/-! ## `incompleteGamma`  (cpp:146-217) -/
+/-! ## `incompleteGamma`  (cpp:146-219) -/
 def accurate : α := dy 3022314549036573 78   -- 1e-8  (:150)
 def overflow : α := ofInt 1000000000000000019884624838656   -- 1e30  (:150)
 
-/-- `factor` at :159 -/
+/-- `factor` at :161 -/
 def igFactor (x p g : α) : α := exp (p * log x - x - g)
 /-- the switch at :160: continued fraction iff `x > 1 && x >= p` -/
 def igUseCF (x p : α) : Bool := gtb x one && geb x p
 
-/-- state of the series loop l20 (:171-176) -/
+/-- state of the series loop l20 (:173-178) -/
 structure Ser (α : Type) where
   rn : α
   term : α
@@ -95,11 +102,11 @@ def igSeriesStep (x : α) (s : Ser α) : Sum (Ser α) α :=
   let gin := s.gin + term
   if gtb term accurate then .inl ⟨rn, term, gin⟩ else .inr gin
 
-/-- the series branch :170-178 -/
+/-- the series branch :172-180 -/
 def igSeries (fuel : Nat) (x p factor : α) : Option α :=
   (iter (igSeriesStep x) fuel ⟨p, one, one⟩).map (fun gin => gin * (factor / p))
 
-/-- state of the continued fraction l32 (:181-210); `pn[4]`, `pn[5]` are recomputed each round -/
+/-- state of the continued fraction l32 (:183-212); `pn[4]`, `pn[5]` are recomputed each round -/
 structure CF (α : Type) where
   a : α
   b : α
@@ -110,7 +117,7 @@ structure CF (α : Type) where
   p2 : α
   p3 : α
 
-/-- one round l32 … `goto l32` (:185-210).  The only exit is l42: `dif <= accurate` and
+/-- one round l32 … `goto l32` (:187-212).  The only exit is l42: `dif <= accurate` and
 `dif <= accurate * rn`; it delivers the *previous* `gin` (l34 is skipped). -/
 def igCFStep (s : CF α) : Sum (CF α) α :=
   let a := s.a + one
@@ -131,7 +138,7 @@ def igCFStep (s : CF α) : Sum (CF α) α :=
     else if leb dif (accurate * rn) then .inr s.gin
     else shift rn
 
-/-- the continued-fraction branch :181-212 -/
+/-- the continued-fraction branch :183-214 -/
 def igCF (fuel : Nat) (x p factor : α) : Option α :=
   let a := one - p
   let b := a + x + one
@@ -139,10 +146,11 @@ def igCF (fuel : Nat) (x p factor : α) : Option α :=
   let p3 := x * b
   (iter igCFStep fuel ⟨a, b, zero, p2 / p3, one, x, p2, p3⟩).map (fun gin => one - factor * gin)
 
-/-- `RandomTools::incompleteGamma(x, alpha, ln_gamma_alpha)`, cpp:146-217 -/
-def incompleteGamma (fuel : Nat) (x p g : α) : R α :=
+/-- `RandomTools::incompleteGamma(x, alpha, ln_gamma_alpha)`, cpp:146-219 -/
+def incompleteGamma [InfTest α] (fuel : Nat) (x p g : α) : R α :=
   if ltb x zero || leb p zero then .val minusOne
   else if eqb x zero then .val zero
+  else if InfTest.isInf x then .val one   -- :158-159 (added by the repair of the non-termination at x = +inf)
   else
     let factor := igFactor x p g
     if igUseCF x p then
@@ -150,11 +158,11 @@ def incompleteGamma (fuel : Nat) (x p g : α) : R α :=
       else R.ofOpt (igCF fuel x p factor)
     else R.ofOpt (igSeries fuel x p factor)
 
-/-! ## `qChisq`  (cpp:220-277) -/
-def qcE : α := dy 4722366482869645 73   -- .5e-6  (:222)
-def qcAA : α := dy 1560828691906355 51   -- .6931471805  (:222)
-def chLo : α := dy 4722366482869645 71   -- .000002  (:225)
-def chHi : α := dy 9007181240342483 53   -- .999998  (:225)
+/-! ## `qChisq`  (cpp:222-279) -/
+def qcE : α := dy 4722366482869645 73   -- .5e-6  (:224)
+def qcAA : α := dy 1560828691906355 51   -- .6931471805  (:224)
+def chLo : α := dy 4722366482869645 71   -- .000002  (:227)
+def chHi : α := dy 9007181240342483 53   -- .999998  (:227)
 def c1_24 : α := dy 5584463537939415 52   -- 1.24
 def c0_32 : α := dy 5764607523034235 54   -- .32
 def c0_4 : α := dy 3602879701896397 53   -- 0.4
@@ -167,18 +175,18 @@ def c0_222222 : α := dy 8006391331148211 55   -- 0.222222
 def c2_2 : α := dy 2476979795053773 50   -- 2.2
 def i (n : Int) : α := ofInt n
 
-/-- the range guard :225 -/
+/-- the range guard :227 -/
 def qcGuard (p v : α) : Bool := ltb p chLo || gtb p chHi || leb v zero
 
-/-- which starting value is used: 0 closed form (:233), 1 the `v <= .32` iteration (l2),
+/-- which starting value is used: 0 closed form (:235), 1 the `v <= .32` iteration (l2),
 2 Wilson–Hilferty (l3) -/
 def qcStartKind (p v : α) : Nat :=
   if geb v (-c1_24 * log p) then (if gtb v c0_32 then 2 else 1) else 0
 
-/-- closed-form start :233 -/
+/-- closed-form start :235 -/
 def qcStart0 (p xx g : α) : α := pow (p * xx * exp (g + xx * qcAA)) (one / xx)
 
-/-- one round of l2 (:242-248), state `ch`; exits to l4 with the new `ch` -/
+/-- one round of l2 (:244-250), state `ch`; exits to l4 with the new `ch` -/
 def qcL2Step (a g c : α) (ch : α) : Sum α α :=
   let q := ch
   let p1 := one + ch * (c4_67 + ch)
@@ -187,14 +195,14 @@ def qcL2Step (a g c : α) (ch : α) : Sum α α :=
   let ch := ch - (one - exp (a + g + half * ch + c * qcAA) * p2 / p1) / t
   if leb (abs (q / ch - one) - c0_01) zero then .inr ch else .inl ch
 
-/-- Wilson–Hilferty start l3 (:251-254) -/
+/-- Wilson–Hilferty start l3 (:253-256) -/
 def qcStart2 (p v g c : α) : α :=
   let x := PNorm.qNorm p
   let p1 := c0_222222 / v
   let ch := v * pow (x * sqrt p1 + one - p1) three
   if gtb ch (c2_2 * v + i 6) then -two * (log (one - p) - c * log (half * ch) + g) else ch
 
-/-- the Taylor-series refinement of one round of l4 (:262-272), given `t = incompleteGamma(…)` -/
+/-- the Taylor-series refinement of one round of l4 (:264-274), given `t = incompleteGamma(…)` -/
 def qcRefine (p xx g c ch t : α) : α :=
   let p1 := half * ch
   let p2 := p - t
@@ -209,7 +217,7 @@ def qcRefine (p xx g c ch t : α) : α :=
   let s6 := (i 120 + c * (i 346 + i 127 * c)) / i 5040
   ch + t * (one + half * t * s1 - b * c * (s1 - b * (s2 - b * (s3 - b * (s4 - b * (s5 - b * s6))))))
 
-/-- one round of l4 (:256-274), state `ch`.  Exits: the error value when `incompleteGamma`
+/-- one round of l4 (:258-276), state `ch`.  Exits: the error value when `incompleteGamma`
 reports an error (or does not return), the refined `ch` when `|q/ch - 1| <= e`. -/
 def qcL4Step (ig : α → α → α → R α) (p xx g c : α) (ch : α) : Sum α (R α) :=
   let q := ch
@@ -226,7 +234,7 @@ def flat : Option (R α) → R α
   | some r => r
   | none => .hang
 
-/-- `RandomTools::qChisq(prob, v)`, cpp:220-277; `lg` = `lnGamma`, `ig` = `incompleteGamma` -/
+/-- `RandomTools::qChisq(prob, v)`, cpp:222-279; `lg` = `lnGamma`, `ig` = `incompleteGamma` -/
 def qChisq (fuel : Nat) (lg : α → α) (ig : α → α → α → R α) (p v : α) : R α :=
   if qcGuard p v then .val minusOne
   else
@@ -244,20 +252,20 @@ def qChisq (fuel : Nat) (lg : α → α) (ig : α → α → α → R α) (p v :
       | none => .hang
     | _ => l4 (qcStart2 p v g c)
 
-/-! ## `incompleteBeta` and its sub-kernels  (cpp:559-947) -/
-def big : α := ofInt 4503599627370496   -- 4.503599627370496e15  (:572)
-def biginv : α := dy 1 52   -- 2.22044604925031308085e-16  (:573)
-def maxgam : α := dy 6038495938344519 45   -- 171.624376956302725  (:574)
+/-! ## `incompleteBeta` and its sub-kernels  (cpp:561-949) -/
+def big : α := ofInt 4503599627370496   -- 4.503599627370496e15  (:574)
+def biginv : α := dy 1 52   -- 2.22044604925031308085e-16  (:575)
+def maxgam : α := dy 6038495938344519 45   -- 171.624376956302725  (:576)
 def c0_95 : α := dy 4278419646001971 52   -- 0.95
 /-- `NumConstants::VERY_TINY()` = 1e-20 -/
 def tiny : α := dy 6646139978924579 119
 /-- `NumConstants::VERY_BIG()` = 1.7e23 -/
 def veryBig : α := ofInt 169999999999999995805696
-def minlog : α := log tiny      -- :575
-def maxlog : α := log veryBig   -- :576
-def thresh : α := three * tiny  -- :713, :826
+def minlog : α := log tiny      -- :577
+def maxlog : α := log veryBig   -- :578
+def thresh : α := three * tiny  -- :715, :828
 
-/-- state of the power-series loop :917-924 -/
+/-- state of the power-series loop :919-926 -/
 structure Ps (α : Type) where
   n : α
   t : α
@@ -284,7 +292,7 @@ def psNorm (lg : α → α) (a b x s : α) : α :=
     let t := lg (a + b) - lg a - lg b + u + log s
     if ltb t minlog then zero else exp t
 
-/-- `RandomTools::incompletebetaps(a, b, x, maxgam)`, cpp:897-947 -/
+/-- `RandomTools::incompletebetaps(a, b, x, maxgam)`, cpp:899-949 -/
 def betaPs (fuel : Nat) (lg : α → α) (a b x : α) : Option α :=
   let ai := one / a
   let u := (one - b) * x
@@ -296,7 +304,7 @@ def betaPs (fuel : Nat) (lg : α → α) (a b x : α) : Option α :=
     let s := s + ai
     psNorm lg a b x s
 
-/-- state of the two continued fractions :714-771, :827-884 -/
+/-- state of the two continued fractions :716-773, :829-886 -/
 structure Fe (α : Type) where
   k1 : α
   k2 : α
@@ -352,12 +360,12 @@ def feResult : Sum (Fe α) α → α
   | .inl s => s.ans
   | .inr ans => ans
 
-/-- `RandomTools::incompletebetafe(a, b, x, big, biginv)`, cpp:670-774 (at most 300 rounds) -/
+/-- `RandomTools::incompletebetafe(a, b, x, big, biginv)`, cpp:672-776 (at most 300 rounds) -/
 def betaFe (a b x : α) : α :=
   feResult (iterCap (feStep x one minusOne) 300
     ⟨a, a + b, a, a + one, one, b - one, a + one, a + two, zero, one, one, one, one, one⟩)
 
-/-- `RandomTools::incompletebetafe2(a, b, x, big, biginv)`, cpp:781-887 (at most 300 rounds) -/
+/-- `RandomTools::incompletebetafe2(a, b, x, big, biginv)`, cpp:783-889 (at most 300 rounds) -/
 def betaFe2 (a b x : α) : α :=
   feResult (iterCap (feStep (x / (one - x)) minusOne one) 300
     ⟨a, b - one, a, a + one, one, a + b, a + one, a + two, zero, one, one, one, one, one⟩)
@@ -375,16 +383,16 @@ structure BetaSub (α : Type) where
 def betaSub (fuel : Nat) (lg : α → α) : BetaSub α :=
   { lg := lg, ps := betaPs fuel lg, fe := betaFe, fe2 := betaFe2 }
 
-/-- the power series is used when `beta * x <= 1.0 && x <= 0.95` (:591, :610) -/
+/-- the power series is used when `beta * x <= 1.0 && x <= 0.95` (:593, :612) -/
 def psCond (b x : α) : Bool := leb (b * x) one && leb x c0_95
-/-- the complement after the power series on the swapped side (:613-616, test `<=`) -/
+/-- the complement after the power series on the swapped side (:615-618, test `<=`) -/
 def complLe (t : α) : α := if leb t tiny then one - tiny else one - t
-/-- the complement after the continued fractions on the swapped side (:639-642, :659-662, test `<`) -/
+/-- the complement after the continued fractions on the swapped side (:641-644, :661-664, test `<`) -/
 def complLt (t : α) : α := if ltb t tiny then one - tiny else one - t
-/-- the tail swap :597 -/
+/-- the tail swap :599 -/
 def ibSwap (x a b : α) : Bool := gtb x (a / (a + b))
 
-/-- cpp:619-656 for the working triple `(alpha, beta, x)` with `xc = 1 - x` as the code has it:
+/-- cpp:621-658 for the working triple `(alpha, beta, x)` with `xc = 1 - x` as the code has it:
 the value *before* the complement of the swapped side -/
 def ibBody (S : BetaSub α) (a b x xc : α) : α :=
   let y := x * (a + b - two) - (a - one)
@@ -402,7 +410,7 @@ def ibBody (S : BetaSub α) (a b x xc : α) : α :=
     let y := y + log (w / a)
     if ltb y minlog then zero else exp y
 
-/-- `RandomTools::incompleteBeta(x, alpha, beta)`, cpp:559-665 -/
+/-- `RandomTools::incompleteBeta(x, alpha, beta)`, cpp:561-667 -/
 def incompleteBeta (S : BetaSub α) (x a b : α) : R α :=
   if leb a zero || leb b zero then .exc
   else if ltb x zero || gtb x one then .exc
@@ -417,21 +425,21 @@ def incompleteBeta (S : BetaSub α) (x a b : α) : R α :=
       else .val (complLt (ibBody S b a w x))
     else .val (ibBody S a b x w)
 
-/-! ## `qBeta`  (cpp:426-556) -/
-def fpu : α := dy2 6072067599219319 537 537   -- 3e-308  (:443)
-def acuMin : α := dy2 6032057205060441 525 524   -- 1e-300  (:443)
+/-! ## `qBeta`  (cpp:428-558) -/
+def fpu : α := dy2 6072067599219319 537 537   -- 3e-308  (:445)
+def acuMin : α := dy2 6032057205060441 525 524   -- 1e-300  (:445)
 def c2_22em16 : α := dy 4502694932010671 104   -- 2.22e-16
 def qbLower : α := fpu
-def qbUpper : α := one - c2_22em16   -- :443
+def qbUpper : α := one - c2_22em16   -- :445
 def c2_30753 : α := dy 162377988252285 46   -- 2.30753
 def c0_27061 : α := dy 609359547581365 51   -- 0.27061
 def c0_99229 : α := dy 8937753748486939 53   -- 0.99229
 def c0_04481 : α := dy 3228900788839551 56   -- 0.04481
 def c2_5 : α := dy 5 1   -- 2.5
-def niterations : Nat := 2000   -- :445
+def niterations : Nat := 2000   -- :447
 
-/-- the initial approximation :473-500 for the working triple `(a, pp, qq)`; the result names the
-start used: 0 both shapes > 1 (:478-483), 1 `t <= 0` (:491), 2 `t <= 1` (:496), 3 else (:498) -/
+/-- the initial approximation :475-502 for the working triple `(a, pp, qq)`; the result names the
+start used: 0 both shapes > 1 (:480-485), 1 `t <= 0` (:493), 2 `t <= 1` (:498), 3 else (:500) -/
 def qbStart (a pp qq lnbeta : α) : Nat × α :=
   let r := sqrt (-log (a * a))
   let y := r - (c2_30753 + c0_27061 * r) / (one + (c0_99229 + c0_04481 * r) * r)
@@ -452,15 +460,15 @@ def qbStart (a pp qq lnbeta : α) : Nat × α :=
       if leb t one then (2, exp ((log (a * pp) + lnbeta) / pp))
       else (3, one - two / (t + one))
 
-/-- the reset :512-513 -/
+/-- the reset :514-515 -/
 def qbReset (a xinbta : α) : α :=
   if leb xinbta qbLower || geb xinbta qbUpper then (a + half) / two else xinbta
 
-/-- the accuracy :522-523 -/
+/-- the accuracy :524-525 -/
 def qbAcu (a pp : α) : α :=
   Scalar.max (pow (i 10) (i (-13) - c2_5 / (pp * pp) - half / (a * a))) acuMin
 
-/-- state of the outer loop :525-552 -/
+/-- state of the outer loop :527-554 -/
 structure Nw (α : Type) where
   xinbta : α
   yprev : α
@@ -468,7 +476,7 @@ structure Nw (α : Type) where
   prev : α
   tx : α
 
-/-- state of the inner loop :532-547 -/
+/-- state of the inner loop :534-549 -/
 structure Inn (α : Type) where
   g : α
   adj : α
@@ -486,7 +494,7 @@ def qbInnerStep (xinbta y prev acu : α) (s : Inn α) : Sum (Inn α) (Inn α × 
     else .inl ⟨s.g / three, adj, tx⟩
   else .inl ⟨s.g / three, adj, s.tx⟩
 
-/-- the inner loop :532-547 with its cap; `true` = `goto L_converged` -/
+/-- the inner loop :534-549 with its cap; `true` = `goto L_converged` -/
 def qbInner (xinbta y prev acu adj tx : α) : Inn α × Bool :=
   match iterCap (qbInnerStep xinbta y prev acu) niterations ⟨one, adj, tx⟩ with
   | .inl st => (st, false)
@@ -508,7 +516,7 @@ def qbOuterStep (pb : α → α → α → R α) (a pp qq lnbeta acu : α) (s : 
     else if ltb (abs (fin.1.tx - s.xinbta)) fpu then .inr (.val s.xinbta)
     else .inl ⟨fin.1.tx, y, fin.1.adj, prev, fin.1.tx⟩
 
-/-- cpp:472-554 for the working triple `(a, pp, qq)`: the value of `xinbta` at `L_converged` -/
+/-- cpp:474-556 for the working triple `(a, pp, qq)`: the value of `xinbta` at `L_converged` -/
 def qbLowerTail (pb : α → α → α → R α) (a pp qq lnbeta : α) : R α :=
   let x0 := qbReset a (qbStart a pp qq lnbeta).2
   let acu := qbAcu a pp
@@ -516,10 +524,10 @@ def qbLowerTail (pb : α → α → α → R α) (a pp qq lnbeta : α) : R α :=
   | .inl s => .val s.xinbta
   | .inr r => r
 
-/-- `RandomTools::lnBeta`, cpp:415-418 -/
+/-- `RandomTools::lnBeta`, cpp:417-420 -/
 def lnBeta (lg : α → α) (a b : α) : α := lg a + lg b - lg (a + b)
 
-/-- `RandomTools::qBeta(prob, alpha, beta)`, cpp:426-556; `pb` = `pBeta` -/
+/-- `RandomTools::qBeta(prob, alpha, beta)`, cpp:428-558; `pb` = `pBeta` -/
 def qBeta (lg : α → α) (pb : α → α → α → R α) (prob p q : α) : R α :=
   if ltb prob zero || gtb prob one then .exc
   else if ltb p zero || ltb q zero then .exc
@@ -549,8 +557,8 @@ def ibReflExpected (x a b : α) (r2 : R α) : Option (R α) :=
 def qbReflExpected (prob : α) (r2 : R α) : Option (R α) :=
   if gtb prob half && ltb prob one then some (r2.map (fun x => one - x)) else none
 
-/-- on the swapped side `incompleteBeta` never exceeds `1 - VERY_TINY` (the clamp :613-616, :639-642,
-:659-662): the executable side of `ib_swapped_le` -/
+/-- on the swapped side `incompleteBeta` never exceeds `1 - VERY_TINY` (the clamp :615-618, :641-644,
+:661-664): the executable side of `ib_swapped_le` -/
 def ibSwapped (x a b : α) : Bool :=
   gtb a zero && gtb b zero && gtb x zero && ltb x one && !(psCond b x) && ibSwap x a b
 
